@@ -70,6 +70,9 @@ def field_domains(ctx, pats: T.Dict[str, str]) -> T.Dict[str, T.Tuple[formats.Do
 def run(ctx) -> None:
     prog = ctx.prog
     ctx.rule("R1", "PART_PATTERNS / PATTERN_PART_FIELDS / PART_FORMATS have the same keys; fields exist; zero/initial tables refer to known parts/fields")
+    ctx.rule("R11", "prerequisite: 'every supported pattern' includes the legacy ones - the legacy renderer and recogniser agree part by part (C20/R1)")
+    from sa.report import run_prerequisite as _rp_c20
+    _rp_c20(ctx, "C20", ("R1",), "R11")
     ctx.rule("R2", "for every part: Image(formatter, Domain(field)) ⊆ L(regex)   (DFA inclusion, all values)")
     ctx.rule("R3", "ordered choice: Python's leftmost-alternative match consumes each rendering completely")
     ctx.rule("R4", "every field is captured under its own group name and read back by the parser")
